@@ -14,7 +14,8 @@ REG = dict(category="model_checking",
     "offsets, every padding-bit pattern for 12 (thorough 35) counts, initialize for n in 1..6, 200, 255, 256, 257 (thorough also 7, 8, 128; every match set and size for n <= 4, thorough 6), "
     "honest proofs for n in 1..6, 255, 256 with predicted bytes, key edge values 0 / n-1 / n / n+1 / 2^256-1, refusals, all single-bit flips of one proof, scalar "
     "substitutions, s+n re-encodings from a spec-side prover with chosen small scalars, tag-list edits, empty selection incl. the empty-ring forgery e0 = SHA256(msg), selected input = output "
-    "incl. the public-data forgeries for a ring containing the infinity key (every n <= 3, selected set and position); all replayed on the "
+    "incl. the public-data forgeries for a ring containing the infinity key (every n <= 3, selected set and position), object histories (parse into an object pre-filled "
+    "with 0xff or holding a 256-of-256 proof: the API must show the last parsed string only); all replayed on the "
     "real API (parser records also on the sanitizer build); (c) validates driver traces (random asset lists through generator_generate_blinded, initialize, generate, "
     "verify with mutations).",
     note="Trusted: TLC, overrides, harness. Ephemeral tags in generated records are points with known discrete logarithms (the code cannot tell); real NUMS generators "
@@ -26,6 +27,9 @@ REG = dict(category="model_checking",
     technique="TLA+ spec executed by TLC; design-level TLC model of the subset selection; spec-generated records (incl. spec-side forgeries) replayed into the C API; "
     "implementation traces validated by TLC",
     design_ref="DESIGN.md §4 C11")
+
+
+PRIOR256 = [0, 1] + [255] * 32 + [(j * 29) % 256 for j in range(32 * 257)]
 
 
 def driver(chk, n_sessions):
@@ -89,6 +93,10 @@ def driver(chk, n_sessions):
         else: pr2 = pr2 + [0]
         ver.append({"e": "SjVerify", "in": {"proof": pr2, "gens": g2, "gout": go2}})
         ver.append({"e": "SjParse", "in": {"b": pr2}})
+        # object history: pre-filled object / an object that held a 256-of-256 proof before
+        hist = {"dirty": 1} if rng.random() < 0.5 else {"prior": PRIOR256}
+        ver.append({"e": "SjVerify", "in": dict({"proof": proof, "gens": i["gens"], "gout": i["gout"]}, **hist)})
+        ver.append({"e": "SjParse", "in": dict({"b": pr2}, **hist)})
     return iev + pev + chk.record(ver, "std")
 
 
